@@ -328,6 +328,12 @@ def main(argv=None):
         entry = open_mechs[mech]
         print(f"KNOWN-FINDING: property={pid} {entry.get('title', mech)} ({len(hits)} hits)")
     if new_violations:
+        mech_counts = {}
+        for _case, vio in new_violations:
+            mech = vio.get("mechanism", "unclassified")
+            mech_counts[mech] = mech_counts.get(mech, 0) + 1
+        for mech, num in sorted(mech_counts.items()):
+            print(f"  violation mechanism ({num}x): {mech}")
         for (case, vio), path in zip(new_violations, replay_paths):
             print(f"VIOLATION property={pid} replay={path}")
             print(f"  mechanism: {vio.get('mechanism')}")
